@@ -8,7 +8,7 @@ export GOFLAGS=-mod=mod GOPROXY=off GOSUMDB=off GOTOOLCHAIN=local
 WT="/tmp/mut-$(echo -n "$PATCH" | md5sum | cut -c1-8)"
 git -C /repo worktree remove --force "$WT" 2>/dev/null; rm -rf "$WT"
 git -C /repo worktree add -q --detach "$WT" HEAD || exit 2
-cleanup() { git -C /repo worktree remove --force "$WT" 2>/dev/null; rm -rf "$WT" /verif/out/alt.*; }
+cleanup() { git -C /repo worktree remove --force "$WT" 2>/dev/null; SFX=$(echo -n "$WT" | md5sum | cut -c1-8); rm -rf "$WT" /verif/out/alt.$SFX.* /verif/out/bin/vcheck.$SFX /verif/out/bin/vcheck-race.$SFX; }
 trap cleanup EXIT
 if ! git -C "$WT" apply "$PATCH"; then echo "SEEDTEST $ID $(basename "$PATCH"): PATCH DOES NOT APPLY"; exit 2; fi
 if ! (cd "$WT" && go build ./... ); then echo "SEEDTEST $ID: DOES NOT COMPILE"; exit 2; fi
